@@ -512,10 +512,24 @@ class Gen:
         r = self.rng.random()
         if depth < 3 and r < 0.35:
             a = self.pred_left(depth + 1)
-            return {"k": "bin", "a": a, "op": self.rng.choice(["and", "and", "or"]), "b": self.pred(depth + 1)}
+            op = self.rng.choice(["and", "and", "or"])
+            b = self.pred(depth + 1)
+            # `and` binds tighter than `or` (D34): an or-chain as the right operand of `and` needs its parentheses, and an and-chain
+            # may stand unparenthesised on the left of `or` (a and b or c = (a and b) or c)
+            if op == "and" and b["k"] == "bin" and b["op"] == "or":
+                b = {"k": "par", "a": b}
+            if op == "or" and self.rng.random() < 0.4:
+                a = self.and_chain(depth + 1)
+            return {"k": "bin", "a": a, "op": op, "b": b}
         if depth < 3 and r < 0.45:
             return {"k": "par", "a": self.pred(depth + 1)}
         return self.atom_pred()
+
+    def and_chain(self, depth):
+        a = self.pred_left(depth)
+        if self.rng.random() < 0.6 or depth >= 3:
+            return {"k": "bin", "a": a, "op": "and", "b": self.pred_left(depth)}
+        return {"k": "bin", "a": a, "op": "and", "b": self.and_chain(depth + 1)}
 
     def pred_left(self, depth):
         # the left operand of a chain is an atom or a parenthesised predicate (chains nest to the right)
